@@ -188,6 +188,9 @@ impl Property for C16 {
     fn required_classes(&self, _tier: Tier) -> Vec<&'static str> {
         vec!["variable_part_at_cap_edge", "variable_part_capped", "refused_below_maximum", "request_error_base_only", "query_free", "default_table", "send_transaction_charged", "cdk_table_checked"]
     }
+    fn fuzz_sequences(&self) -> Vec<(&'static str, usize)> {
+        vec![("/calls", 11)]
+    }
     fn run(&self, case: &Case16) -> Outcome {
         let mut out = Outcome::default();
         // exhaustive client-vs-canister table (cheap; checked in every case so that any seed covers it)
